@@ -15,7 +15,7 @@ def encHdrFn (h : HdrMap) (univ : List Bytes) : String :=
 
 def encResp (r : Resp) (pre : List (Bytes × List Bytes)) : String :=
   let st := match r.status with | none => "-" | some s => toString s
-  s!"{st}\t{encBool r.next}\t{encHdrFn r.hdrs (pre.map (·.1) ++ respNames)}"
+  s!"{st}\t{encBool r.next}\t{encHdrFn r.hdrs (pre.map (·.1) ++ respNames)}\tok"
 
 def encOrigin (o : Origin) : String :=
   s!"{encBytes o.scheme} {encBytes o.host.value} {encBool o.host.assumeIP} {o.port}"
@@ -76,7 +76,8 @@ def opNames (s : String) : String :=
     let bits := [Headers.isValid b, Headers.isForbiddenRequestHeaderName l, Headers.isProhibitedRequestHeaderName l,
       Headers.isForbiddenResponseHeaderName l, Headers.isProhibitedResponseHeaderName l,
       Headers.isSafelistedResponseHeaderName l, Methods.isValid b, Methods.isForbidden b, Methods.isSafelisted b]
-    s!"{String.join (bits.map encBool)} {encBytes (Methods.normalize b)} {encBytes l} {encBytes b.upper}"
+    if b.any (· ≥ 128) then s!"{String.join ((bits.take 7).map encBool)}-- non-ascii"
+    else s!"{String.join (bits.map encBool)} {encBytes (Methods.normalize b)} {encBytes l} {encBytes b.upper}"
 
 def opValidate (cfg orc : String) : String :=
   match decConfig cfg with
@@ -86,12 +87,41 @@ def opValidate (cfg orc : String) : String :=
     | .error e => "err " ++ encErr e ++ " " ++ toString (ETree.leaves e).length
     | .ok icfg => "ok " ++ encConfig (newConfig icfg)
 
-def opServe (cfg orc dbg method hdrs pre : String) : String :=
+/-- Decision oracles supplied by the Go harness as three characters `PAH`
+(`-` = not applicable for this request, read as `false`). -/
+def decOfBits (s : String) : Dec :=
+  let b (i : Nat) : Bool := (s.toList.drop i).head? == some '1'
+  { parses := fun _ => b 0, allowed := fun _ => b 1, acrhOK := fun _ => b 2 }
+
+/-- The model's own decisions on this request, in the same three-character format. -/
+def modelBits (icfg : ICfg) (r : Req) : String :=
+  let d := Serve.modelDec icfg
+  let (p, a) := match r.hdrs.first Facts.headers_Origin with
+    | none => ("-", "-")
+    | some o => (encBool (d.parses o), encBool (d.allowed o))
+  let h := match r.hdrs Facts.headers_ACRH with
+    | none => "-"
+    | some ls => encBool (icfg.asteriskReqHdrs == false && icfg.allowedReqHdrs.size != 0 && d.acrhOK ls)
+  p ++ a ++ h
+
+/-- Response under the model's own decisions, under the harness-supplied decisions, and the
+model's decisions. -/
+def serveBoth (icfg : Option ICfg) (dbg : Bool) (r : Req) (pre : List (Bytes × List Bytes)) (bits : String) : String :=
+  match icfg with
+  | none =>
+    let resp : Resp := { hdrs := mapOf pre, status := none, next := true }
+    s!"{encResp resp pre}\t||\t{encResp resp pre}\t||\t---"
+  | some icfg =>
+    let strict := Serve.serve icfg dbg r (mapOf pre)
+    let viaDec := Serve.serveDec (decOfBits bits) icfg dbg r (mapOf pre)
+    s!"{encResp strict pre}\t||\t{encResp viaDec pre}\t||\t{modelBits icfg r}"
+
+def opServe (cfg orc dbg method hdrs pre bits : String) : String :=
   match decConfig cfg, decBool dbg, decBytes method, decMap hdrs, decMap pre with
   | some c, some d, some m, some hs, some pre => withOracle orc c.origins fun ext =>
     match newInternalConfig ext c with
     | .error _ => "cfgerr"
-    | .ok icfg => encResp (Serve.serve icfg d { method := m, hdrs := mapOf hs } (mapOf pre)) pre
+    | .ok icfg => serveBoth (some icfg) d { method := m, hdrs := mapOf hs } pre bits
   | _, _, _, _, _ => "BAD-INPUT"
 
 /-- Error trees on the wire: `L<id>` or `J(<tree> <tree> …)`, whitespace-separated. -/
@@ -146,7 +176,7 @@ def step (st : DState) (line : String) : DState × String :=
   | ["trim", s, n] => (st, opTrim s n)
   | ["names", s] => (st, opNames s)
   | ["validate", cfg, orc] => (st, opValidate cfg orc)
-  | ["serve", cfg, orc, dbg, m, hs, pre] => (st, opServe cfg orc dbg m hs pre)
+  | ["serve", cfg, orc, dbg, m, hs, pre, bits] => (st, opServe cfg orc dbg m hs pre bits)
   | ["errors", tree, brk] => (st, opErrors tree brk)
   | ["h.zero", id] => (st.put id Mw.zero [], "ok")
   | ["h.new", id, cfg, orc] =>
@@ -176,10 +206,11 @@ def step (st : DState) (line : String) : DState × String :=
     | some b => let (m, t) := st.get id; (st.put id (m.setDebug b) t, "ok")
     | none => (st, "BAD-INPUT")
   | ["h.config", id] => (st, encCfgOpt (st.get id).1.config)
-  | ["h.serve", id, m, hs, pre] =>
+  | ["h.serve", id, m, hs, pre, bits] =>
     match decBytes m, decMap hs, decMap pre with
     | some m, some hs, some pre =>
-      (st, encResp ((st.get id).1.serve { method := m, hdrs := mapOf hs } (mapOf pre)) pre)
+      let mw := (st.get id).1
+      (st, serveBoth mw.icfg mw.debug { method := m, hdrs := mapOf hs } pre bits)
     | _, _, _ => (st, "BAD-INPUT")
   | _ => (st, "BAD-OP")
 
